@@ -4,6 +4,7 @@ import UralModel.Lemmas.QuoteUpper
 import UralModel.Lemmas.QuoteControl
 import UralModel.Lemmas.QuoteSplit
 import UralModel.Lemmas.QuotePost
+import UralModel.Lemmas.QuoteAuth
 import UralModel.Gen.QuoteTables
 import UralModel.Model.Canonicalize
 /-!
@@ -825,13 +826,180 @@ example :
 configurations (and `safely_quote`, `upper_quoted` themselves): the theorems above are about
 what the public API runs -/
 theorem api_functions :
-    Canonicalize.unquoteAuthItem = safelyUnquote Gen.Quote.unsafeForAuthItem ∧
+    (∀ s, Canonicalize.unquoteAuthItem s =
+      requoteNfkc (safelyUnquote Gen.Quote.unsafeForAuthItem s)) ∧
     Canonicalize.unquotePath = safelyUnquote Gen.Quote.unsafeForPath ∧
     Canonicalize.unquoteQueryItem = safelyUnquote Gen.Quote.unsafeForQueryItem ∧
     Canonicalize.unquoteFragment = safelyUnquote Gen.Quote.unsafeForFragment ∧
     (∀ url dp, Canonicalize.cleanUrl url dp =
       UrlParts.ensureProtocol (upperQuoted (strip (UrlParts.stripControl url))) dp) :=
-  ⟨rfl, rfl, rfl, rfl, fun _ _ => rfl⟩
+  ⟨fun _ => rfl, rfl, rfl, rfl, fun _ _ => rfl⟩
+
+/-! ## `safely_unquote_auth_item` since FX-C01-NFKCUSERINFO: the partial, then `requoteNfkc` -/
+
+/-- **table obligation** (the model describes the code): the real `safely_unquote_auth_item`
+differs from `partial(unquote, …)` of the regenerated configuration exactly on the non-ASCII code
+points the running `urlsplit` refuses in a netloc for their NFKC form (`Gen.nfkcDelimCodes`,
+probed: every code point escaped, the candidates also in lower case and raw), on which it gives `quote(char)`; the
+model's `nfkcDelimChar` is membership in that table.  On a /repo without the fix the probed list is
+empty and the flag false: the obligation fails. -/
+theorem tables_auth_wrapper :
+    Gen.Quote.authItemRequotesNfkcDelims = true ∧
+    Gen.Quote.authItemRequotedCodes = Gen.nfkcDelimCodes ∧
+    Gen.nfkcDelimCodes ≠ [] ∧
+    (∀ c : Char, nfkcDelimChar c = Gen.Quote.authItemRequotedCodes.contains c.toNat) :=
+  ⟨by decide, by decide, by decide, fun _ => rfl⟩
+
+theorem count_requoteNfkc_le (d : Char) (hp : d ≠ '%') (hh : isHexDigit d = false) (q : Str) :
+    (requoteNfkc q).count d ≤ q.count d := by
+  induction q with
+  | nil => simp [requoteNfkc]
+  | cons c r ih =>
+    rw [requoteNfkc_cons, List.count_append, List.count_cons]
+    have h1 : (requoteNfkc [c]).count d ≤ if c == d then 1 else 0 := by
+      simp only [requoteNfkc, List.flatMap_cons, List.flatMap_nil, List.append_nil]
+      split
+      · have : d ∉ render ((utf8 c).map escOfByte) := by
+          intro hm
+          rcases mem_render_escOfByte hm with e | e
+          · exact hp e
+          · rw [hh] at e; cases e
+        rw [List.count_eq_zero.2 this]; exact Nat.zero_le _
+      · simp [List.count_cons]
+    omega
+
+theorem count_raw_nfkcToks (d : Char) (hd : d.toNat < 0x80) (ts : List Tok) :
+    (nfkcToks ts).count (.raw d) = ts.count (.raw d) := by
+  induction ts with
+  | nil => rfl
+  | cons t r ih =>
+    rw [nfkcToks_cons, List.count_append, ih, List.count_cons]
+    have : (nfkcTok t).count (.raw d) = if t == .raw d then 1 else 0 := by
+      cases t with
+      | raw c =>
+        simp only [nfkcTok]
+        split
+        · rename_i hs
+          have hne : c ≠ d := by
+            intro e; subst e; have := nfkcDelimChar_high hs; omega
+          have h0 : Tok.raw d ∉ (utf8 c).map escOfByte := by
+            intro hm
+            simp only [List.mem_map] at hm
+            obtain ⟨b, _, hb⟩ := hm
+            simp [escOfByte] at hb
+          rw [List.count_eq_zero.2 h0]
+          simp [hne]
+        · simp [List.count_cons]
+      | esc h1 h2 => simp [nfkcTok, List.count_cons]
+      | stray => simp [nfkcTok, List.count_cons]
+    omega
+
+theorem nfkcToks_map_upperTok (ts : List Tok) :
+    (nfkcToks ts).map upperTok = nfkcToks (ts.map upperTok) := by
+  induction ts with
+  | nil => rfl
+  | cons t r ih =>
+    rw [nfkcToks_cons, List.map_append, ih, List.map_cons, nfkcToks_cons]
+    congr 1
+    cases t with
+    | raw c =>
+      simp only [nfkcTok, upperTok]
+      split
+      · rw [List.map_map]
+        exact List.map_congr_left fun b _ => upperTok_escOfByte b
+      · rfl
+    | esc h1 h2 => rfl
+    | stray => rfl
+
+/-- **`safely_unquote_auth_item`, for every string** — the clauses of `api_unquote_contract` for
+the function the API runs on a user name / password since FX-C01-NFKCUSERINFO: same decoded bytes;
+no raw space; no control character more often than in the input; no stray `%`; idempotent;
+idempotent when followed by `safely_quote`, and `safely_quote` after it is `safely_quote` after the
+bare partial (quoted mode never changed); commutes with `upper_quoted`; the delimiters
+`@ : / ? # [ ]` have the same raw occurrences in the output as in the input — and the new clause:
+**no character of the output is one `urlsplit` refuses for its NFKC form**; where the partial
+decodes no such character the function is the partial -/
+theorem auth_item_contract (s : Str) :
+    pctStr (safelyUnquoteAuthItem s) = pctStr s ∧
+    ' ' ∉ safelyUnquoteAuthItem s ∧
+    (∀ ch, isControl ch → (safelyUnquoteAuthItem s).count ch ≤ s.count ch) ∧
+    Tok.stray ∉ tokens (safelyUnquoteAuthItem s) ∧
+    safelyUnquoteAuthItem (safelyUnquoteAuthItem s) = safelyUnquoteAuthItem s ∧
+    safelyQuote (safelyUnquoteAuthItem (safelyQuote (safelyUnquoteAuthItem s))) =
+      safelyQuote (safelyUnquoteAuthItem s) ∧
+    safelyQuote (safelyUnquoteAuthItem s) =
+      safelyQuote (safelyUnquote Gen.Quote.unsafeForAuthItem s) ∧
+    safelyUnquoteAuthItem (upperQuoted s) = upperQuoted (safelyUnquoteAuthItem s) ∧
+    (∀ d ∈ ['@', ':', '/', '?', '#', '[', ']'],
+      (tokens (safelyUnquoteAuthItem s)).count (.raw d) = (tokens s).count (.raw d)) ∧
+    (∀ c ∈ safelyUnquoteAuthItem s, c.toNat ∉ Gen.nfkcDelimCodes) ∧
+    ((∀ c ∈ safelyUnquote Gen.Quote.unsafeForAuthItem s, c.toNat ∉ Gen.nfkcDelimCodes) →
+      safelyUnquoteAuthItem s = safelyUnquote Gen.Quote.unsafeForAuthItem s) := by
+  have hU := pct_auth
+  have hA := asciiSet_authItem
+  refine ⟨pctStr_authItem s, ?_, ?_, ?_, authItem_idem s, ?_, safelyQuote_authItem s, ?_, ?_, ?_,
+    fun h => authItem_eq_partial h⟩
+  · intro hm
+    rcases mem_requoteNfkc_cases hm with h | h | h
+    · exact unquote_no_space _ s h
+    · revert h; decide
+    · revert h; decide
+  · intro ch hc
+    have hp : ch ≠ '%' := by
+      rintro rfl
+      have e : ('%' : Char).toNat = 37 := rfl
+      unfold isControl at hc; omega
+    have hh : isHexDigit ch = false := by
+      cases e : isHexDigit ch with
+      | false => rfl
+      | true =>
+        have := isHexDigit_props e
+        have h2 := (isHexDigit_iff ch).1 e
+        unfold isControl at hc; omega
+    exact Nat.le_trans (count_requoteNfkc_le ch hp hh _) (unquote_control_count _ hU s ch hc)
+  · intro h
+    rw [tokens_authItem] at h
+    exact canon_nfkcToks (canon_unquoteToks_auth s) _ h
+  · rw [safelyQuote_authItem, safelyQuote_authItem]
+    exact quote_unquote_idempotent _ hU hA s
+  · -- upper_quoted
+    have hT := canon_unquoteToks_auth s
+    have e1 : safelyUnquoteAuthItem (upperQuoted s) =
+        requoteNfkc (upperQuoted (safelyUnquote Gen.Quote.unsafeForAuthItem s)) := by
+      show requoteNfkc (safelyUnquote _ (upperQuoted s)) = _
+      rw [upper_commutes_unquote _ hU]
+    rw [e1]
+    unfold upperQuoted
+    rw [tokens_authItem, tokens_safelyUnquote _ hU, nfkcToks_map_upperTok]
+    apply requoteNfkc_render
+    intro h1 h2 hm
+    simp only [List.mem_map] at hm
+    obtain ⟨t, ht, e⟩ := hm
+    cases t with
+    | raw c => simp [upperTok] at e
+    | stray => simp [upperTok] at e
+    | esc a b =>
+      simp only [upperTok, Tok.esc.injEq] at e
+      have := hT _ ht
+      rw [← e.1, ← e.2, isHexDigit_upperChar, isHexDigit_upperChar]
+      exact this
+  · intro d hd
+    rw [tokens_authItem, count_raw_nfkcToks d (by
+      simp only [List.mem_cons, List.not_mem_nil, or_false] at hd
+      rcases hd with rfl | rfl | rfl | rfl | rfl | rfl | rfl <;> decide),
+      ← tokens_safelyUnquote _ hU]
+    simp only [List.mem_cons, List.not_mem_nil, or_false] at hd
+    rcases hd with rfl | rfl | rfl | rfl | rfl | rfl | rfl
+    · exact unquote_delimiters_table _ hU hA 64 (by decide) (by decide) s
+    · exact unquote_delimiters_table _ hU hA 58 (by decide) (by decide) s
+    · exact unquote_delimiters_table _ hU hA 47 (by decide) (by decide) s
+    · exact unquote_delimiters_table _ hU hA 63 (by decide) (by decide) s
+    · exact unquote_delimiters_table _ hU hA 35 (by decide) (by decide) s
+    · exact unquote_delimiters_table _ hU hA 91 (by decide) (by decide) s
+    · exact unquote_delimiters_table _ hU hA 93 (by decide) (by decide) s
+  · intro c hc hm
+    have := authItem_no_nfkc s c hc
+    simp [nfkcDelimChar, hm] at this
 
 /-- `safely_unquote_qsl` / `safely_quote_qsl` (key/value lists): same shape — as many pairs, a
 missing value stays missing —, keys and values decode to the same bytes, and each of the two,
